@@ -543,7 +543,7 @@ class Interp(Engine):
         arr = st.fresh("cat", z3.ArraySort(z3.IntSort(), sort_of(a.kind.elem)))
         ea = self.harr(st, e)
         i = z3.Int("cat_i")
-        self.assume(st, z3.ForAll([i], arr[i] == z3.If(i < la, ea[a.term][i], ea[b.term][i - la]), patterns=[arr[i]]))
+        self.assume(st, qforall([i], arr[i] == z3.If(i < la, ea[a.term][i], ea[b.term][i - la]), patterns=[arr[i]]))
         st.heap[e] = z3.Store(ea, out.term, arr)
         return out
 
@@ -633,8 +633,8 @@ class Interp(Engine):
         srcv = vsa[src.term][kk]
         if src.kind.v != dst.kind.v:
             srcv = self.coerce(st, SV(src.kind.v, srcv), dst.kind.v, node).term
-        self.assume(st, z3.ForAll([kk], nh[kk] == z3.Or(ha[dst.term][kk], hsa[src.term][kk]), patterns=[nh[kk]]))
-        self.assume(st, z3.ForAll([kk], nv[kk] == z3.If(hsa[src.term][kk], srcv, va[dst.term][kk]), patterns=[nv[kk]]))
+        self.assume(st, qforall([kk], nh[kk] == z3.Or(ha[dst.term][kk], hsa[src.term][kk]), patterns=[nh[kk]]))
+        self.assume(st, qforall([kk], nv[kk] == z3.If(hsa[src.term][kk], srcv, va[dst.term][kk]), patterns=[nv[kk]]))
         nn = st.fresh("updn", z3.IntSort())
         self.assume(st, z3.And(nn >= na[dst.term], nn <= na[dst.term] + self.dict_size(st, src)))
         st.heap[h] = z3.Store(ha, dst.term, nh)
@@ -704,7 +704,7 @@ class Interp(Engine):
         arr = st.fresh("slc", z3.ArraySort(z3.IntSort(), sort_of(v.kind.elem)))
         ea = self.harr(st, e)
         i = z3.Int("slc_i")
-        self.assume(st, z3.ForAll([i], arr[i] == ea[v.term][lo + i], patterns=[arr[i]]))
+        self.assume(st, qforall([i], arr[i] == ea[v.term][lo + i], patterns=[arr[i]]))
         st.heap[eo] = z3.Store(self.harr(st, eo), out.term, arr)
         out.guard = None
         st.ghost.setdefault("slices", {})[id(out)] = (v, lo)
@@ -742,6 +742,8 @@ class Interp(Engine):
             nm = fn.id
             if nm in ("old", "forall", "exists", "implies", "fresh", "iff") and (self.spec_mode or nm in ("implies",)):
                 return self.spec_builtin(st, nm, node)
+        if isinstance(fn, ast.Name) and fn.id == "cast" and len(node.args) == 2:
+            return self.eval(st, node.args[1])     # typing.cast: identity, the type is not evaluated
         # logger / warnings: no-ops, arguments not evaluated (DESIGN 3.1)
         if isinstance(fn, ast.Attribute) and isinstance(fn.value, ast.Name) and fn.value.id in ("_logger", "logger", "warnings", "logging"):
             if fn.value.id not in self.frame(st).env:
@@ -822,7 +824,13 @@ class Interp(Engine):
 
     def call_repo_function(self, st, fi: FuncInfo, args, kwargs, node):
         c = self.reg.contracts.get(fi.key)
-        cur = self.frame(st).contract if st.frames else None
+        top = st.frames[0] if st.frames else None
+        # self-calls inside the class under verification: loop-free callees are inlined (their
+        # contracts' invariants do not hold in the middle of the caller)
+        if (c is not None and not c.inline and not self.spec_mode and top is not None and top.fi is not None
+                and top.fi.cls is not None and fi.cls is not None and issubclass(top.fi.cls, fi.cls)
+                and args and args[0] is top.env.get("self") and self.inlinable(fi) and not c.no_self_inline):
+            return self.inline_call(st, fi, args, kwargs, node, None)
         if c is not None and not c.inline and not self.spec_mode:
             return self.apply_contract(st, fi, c, args, kwargs, node)
         if c is None and not self.inlinable(fi) and not self.spec_mode:
